@@ -71,10 +71,17 @@ pub fn lens_for(tier: Tier) -> Vec<usize> {
         v.extend(100..=140);
         v.extend(16380..=16390);
         v.extend([65535, 65536, 65537, 2097150, 2097151, 2097152, 2097153]);
+        v.extend(dense_lens());
+        v.sort();
+        v.dedup();
         v
     } else {
         // incl. the lengths at which the LEB128 length prefix grows to 3 and to 4 bytes and the 16 bit boundary
-        vec![0, 1, 30, 31, 32, 33, 40, 127, 128, 140, 16383, 16384, 65535, 65536, 65537, 2097151, 2097152]
+        let mut v = vec![0, 1, 30, 31, 32, 33, 40, 127, 128, 140, 16383, 16384, 65535, 65536, 65537, 2097151, 2097152];
+        v.extend(dense_lens());
+        v.sort();
+        v.dedup();
+        v
     }
 }
 
